@@ -55,6 +55,7 @@ def group_envs(cases: list) -> list:
         e["suffix"][c["S"]] = c["suffix"] if not c["S"].endswith(".m") else []
         if c["S"] == "A.init":
             e["stm"] = c["stm"]
+            e["pre"] = c["pre"]
     out = []
     for i, (k, e) in enumerate(sorted(envs.items())):
         if e["stm"] is None:
